@@ -1215,6 +1215,9 @@ func (h *Handler) servePromCreateTSDB(w http.ResponseWriter, r *http.Request, us
 		handlerStat.Write400ErrRequests.Incr()
 		return
 	}
+	if !h.authorizeLogStoreAdmin(w, user) {
+		return
+	}
 	options := &obs.ObsOptions{}
 	dec := json2.NewDecoder(r.Body)
 	if err := dec.Decode(options); err != nil {
